@@ -231,3 +231,48 @@ Theorem tie_invalidate_by_labels :
   run_ibl = Some [("Lock", []); ("snapshot of the index and of the caches, per name", []); ("Unlock", []);
                   ("for each name of the snapshot: invalidate, add up, stop at the first error", [])].
 Proof. reflexivity. Qed.
+
+(* ---- AddCache: under the index mutex, the deleter is appended to the deleters of that name (earlier registrations
+   under the name are kept: InvalidateByLabels deletes from all of them) ---- *)
+Definition ac_prims : prims := fun f args s =>
+  match f, args with
+  | "i.mu.Lock", [] => Some (VNil, emit "Lock" [] s)
+  | "append", [old; VPtr true "deleter"] => Some (VRec "append" [("to", old); ("the", VPtr true "deleter")], s)
+  | _, _ => None
+  end.
+
+Definition run_add_cache (had : bool) : option (list effect) :=
+  run ac_prims no_fcmp no_loop (fun _ s => Some (eff s)) (fun _ => None) fn_InvalidationIndex_AddCache
+      [VPtr true "i"; VPtr true "name"; VPtr true "deleter"]
+      [("i.deleters[name]", VPtr had "deleters registered under the name")] (fun s => Some (eff s)).
+
+Theorem tie_index_add_cache : forall had,
+  run_add_cache had =
+  Some [("Lock", []); ("defer i.mu.Unlock", []);
+        ("assign i.deleters[name]",
+         [VRec "append" [("to", VPtr had "deleters registered under the name"); ("the", VPtr true "deleter")]])].
+Proof. intros [|]; reflexivity. Qed.
+
+(* ---- NewInvalidationIndex: deleters given to the constructor are registered under the name "default" (the name
+   backends use for their embedded index); with none given nothing is registered ---- *)
+Definition ni_prims (n : Z) : prims := fun f args s =>
+  match f, args with
+  | "make", [VStr ty] => Some (VRec "make" [("type", VStr ty)], s)
+  | "len", [VPtr true "deleters"] => Some (VZ n, s)
+  | _, _ => None
+  end.
+
+Definition run_new_index (n : Z) : option (list value * list effect) :=
+  run (ni_prims n) no_fcmp no_loop (fun vs s => Some (vs, eff s)) (fun _ => None) fn_NewInvalidationIndex
+      [VPtr true "deleters"] [] (fun _ => None).
+
+Theorem tie_new_index : forall n,
+  run_new_index n =
+  Some ([VRec "InvalidationIndex"
+           [("deleters", VRec "make" [("type", VStr "type map[string][]Deleter")]);
+            ("labeledKeysByName", VRec "make" [("type", VStr "type map[string]map[string][]string")])]],
+        if 0 <? n then [("assign ds[""default""]", [VPtr true "deleters"])] else []).
+Proof.
+  intros n. unfold run_new_index. cbv -[Z.eqb Z.ltb Z.leb Z.add Z.sub Z.mul Z.opp].
+  destruct (0 <? n); reflexivity.
+Qed.
